@@ -24,7 +24,10 @@ ANC_PROPS = {
     2: [[Fraction(1, 2), Fraction(1, 2)], [Fraction(1, 4), Fraction(3, 4)], [Fraction(7, 8), Fraction(1, 8)]],
     3: [[Fraction(1, 4), Fraction(1, 4), Fraction(1, 2)], [Fraction(1, 8), Fraction(1, 8), Fraction(3, 4)]],
 }
-NAMES = ["A", "B", "C", "D", "E", "F", "G", "H", "pop_1", "_x", "Z9", "deme1"]
+NAMES = ["A", "B", "C", "D", "E", "F", "G", "H", "pop_1", "_x", "Z9", "deme1",
+         # valid identifiers beyond ASCII (XID_Start / XID_Continue; Model/Ident.lean): Greek, CJK, a combining accent,
+         # an Arabic-Indic digit and the middle dot in continuing position
+         "π", "Δx", "名前", "e\u0301t", "x٣", "a·b"]
 DESCRIPTIONS = ["", "", "a deme", "x: y", "two\nlines", "café"]
 
 
@@ -63,7 +66,7 @@ def gen_model(rng: random.Random, *, max_demes=6, time_scale=8, gen_times=(1, 2,
     m.header["description"] = rng.choice(DESCRIPTIONS)
     m.header["doi"] = rng.choice([[], [], ["10.1000/xyz"], ["a", "b"]])
     m.header["metadata"] = rng.choice(
-        [{}, {}, {"k": 1}, {"a": {"b": [1, 2.5, "s", None]}, "c": "Infinity"}, {"flag": True, "n": None},
+        [{}, {}, {"k": 1}, {"a": {"b": [1, 2.5, "s", None]}, "c": "Infinity"}, {"flag": True, "n": None}, {"start_time": "Infinity", "demes": [{"start_time": "Infinity", "name": "A"}]},
          {"time": 2500, "sampling": {"start_time": 100, "end_time": [5, 7.5], "demes": [{"name": "x", "start_time": 64}]}, "rate": 0.5}]
     )
     ngrid = rng.randint(2, 6)
@@ -205,11 +208,34 @@ def gen_model(rng: random.Random, *, max_demes=6, time_scale=8, gen_times=(1, 2,
                 if hi <= lo:
                     continue
                 cuts = [t for t in grid if lo < t < hi]
-                if len(cuts) >= 2 and rng.random() < 0.12 and not occupied.get((a["name"], b["name"])):
+                if len(cuts) >= 2 and rng.random() < 0.2 and not occupied.get((a["name"], b["name"])):
                     # three consecutive windows for one ordered pair with rates r1, r2, r1 (or r1, 0, r1)
                     t2, t1 = sorted(rng.sample(cuts, 2), reverse=True)
                     r1 = rng.choice(RATES)
                     r2 = rng.choice([r for r in RATES if r != r1] + [0])
+                    if (rng.random() < 0.4 and not occupied.get((b["name"], a["name"])) and ingress[b["name"]] + max(r1, r2) <= 1
+                            and ingress[a["name"]] + max(r1, r2) <= 1):
+                        # the same three windows as SYMMETRIC migrations of the pair (the middle one may be a pause, the
+                        # last one may be one-way): two windows of one pair with the same rate, an earlier-listed one of
+                        # which collapses into a symmetric entry of the simplified form
+                        ingress[b["name"]] += max(r1, r2)
+                        ingress[a["name"]] += max(r1, r2)
+                        wins = [(hi, t2, r1, True), (t2, t1, r2, True), (t1, lo, r1, rng.random() < 0.6)]
+                        order = rng.choice([wins, wins[::-1], [wins[1], wins[0], wins[2]]])
+                        for (ws, we, rr, sym) in order:
+                            if rr == 0 and sym and rng.random() < 0.5:
+                                continue            # a pause instead of an explicit zero-rate window
+                            dirs = [(a["name"], b["name"]), (b["name"], a["name"])] if sym else [(a["name"], b["name"])]
+                            for (x, y) in dirs:
+                                occupied.setdefault((x, y), []).append((ws, we))
+                            st, en = (None if ws == hi else ws), (None if we == lo else we)
+                            if sym:
+                                m.migrations.append(dict(demes=[a["name"], b["name"]], start_time=st, end_time=en, rate=rr,
+                                                         _eff=[(x, y, ws, we) for (x, y) in dirs]))
+                            else:
+                                m.migrations.append(dict(source=a["name"], dest=b["name"], start_time=st, end_time=en, rate=rr,
+                                                         _eff=[(a["name"], b["name"], ws, we)]))
+                        continue
                     if ingress[b["name"]] + max(r1, r2) <= 1:
                         ingress[b["name"]] += max(r1, r2)
                         wins = [(hi, t2, r1), (t2, t1, r2), (t1, lo, r1)]
@@ -603,6 +629,14 @@ def overlap_variant(m: Model, rng: random.Random):
         m2.migrations.insert(idx + 1, new)
     else:
         m2.migrations.insert(idx, new)
+    if rng.random() < 0.3:
+        # a third entry for the same ordered pair, listed anywhere among the entries: an overlap may then be between
+        # entries that are not neighbours in the list (e.g. a zero-rate window, a disjoint one, then one that
+        # overlaps the first)
+        s3, e3 = window()
+        third = dict(source=mg["source"], dest=mg["dest"], start_time=s3, end_time=e3, rate=rng.choice([0, Fraction(1, 64), Fraction(1, 32)]),
+                     _eff=[(mg["source"], mg["dest"], s3, e3)])
+        m2.migrations.insert(rng.choice([idx, idx + 1, idx + 2, len(m2.migrations)]), third)
     # overlapping: two entries for one ordered pair whose intervals intersect
     effs = [e for other in m2.migrations for e in other["_eff"]]
     overlapping = any(x is not y and x[0] == y[0] and x[1] == y[1] and x[2] > y[3] and y[2] > x[3]
